@@ -27,11 +27,16 @@ for sid in ids:
         print(sid, "PATCH-FAILED")
         continue
     try:
-        for p in todo:
+        from concurrent.futures import ThreadPoolExecutor
+
+        def one(p):
             q = subprocess.run([V + "/check", p, tier], capture_output=True, text=True, cwd=V)
             viol = [l for l in q.stdout.splitlines() if l.startswith("VIOLATION")]
             detail = [l.strip() for l in q.stdout.splitlines() if l.startswith("  rule=")]
-            r[p] = {"exit": q.returncode, "violations": len(viol), "first": detail[:2]}
+            return p, {"exit": q.returncode, "violations": len(viol), "first": detail[:2]}
+        with ThreadPoolExecutor(max_workers=10) as ex:
+            for p, x in ex.map(one, todo):
+                r[p] = x
     finally:
         subprocess.run(["git", "-C", "/repo", "checkout", "--", "."], check=True)
     caught = [p for p, x in r.items() if x["exit"] != 0]
